@@ -733,3 +733,30 @@ pub fn check_pair(c: &PairCase, known: &Arc<Known>) -> Verdict {
     end_of_case(&sb);
     j.finish(true)
 }
+
+
+/// Pairs of well-formed Ribbit keys (region `us`, endpoint `v1/products/<name>/versions`, names of
+/// `[a-z0-9]`) whose cache key strings have the same 64-bit lookup3 hash — constructed from the
+/// hash's 12-byte block structure by a reviewer of this check. lookup3 is not collision resistant;
+/// a key type that decides equality, or a cache that names its files, by such a hash treats the two
+/// keys of a pair as one. Distinct keys are distinct entries all the same.
+pub const LOOKUP3_COLLIDING_ENDPOINTS: [(&str, &str); 3] = [
+    ("v1/products/wovzfbd6of12h1h200ac0akaaq/versions", "v1/products/wod2v2yjl81fjnaabu3apya180/versions"),
+    ("v1/products/wovzfbd6of12h1000uaaam0sia/versions", "v1/products/wobhb6eah13do0agiat770p0ar/versions"),
+    ("v1/products/wozpe0wufvjfttb0rf900paaaa/versions", "v1/products/worfrmyyo4p5s50v00abg0pf8k/versions"),
+];
+
+pub fn colliding_pairs() -> Vec<PairCase> {
+    let mut v = Vec::new();
+    for (i, (a, b)) in LOOKUP3_COLLIDING_ENDPOINTS.iter().enumerate() {
+        for layout in [Layout::Flat, Layout::Hashed1, Layout::Hashed2] {
+            v.push(PairCase {
+                layout,
+                a: TKey::Ribbit { endpoint: (*a).to_string(), region: "us".into(), product: None },
+                b: TKey::Ribbit { endpoint: (*b).to_string(), region: "us".into(), product: None },
+                seed: 0x20C + i as u64,
+            });
+        }
+    }
+    v
+}
